@@ -158,6 +158,39 @@ theorem C02_const_fn {σ : Type} (step : StepParams → ℚ → σ → σ) (tf :
     integrateFn step tf (fun _ => P) T fuel t P φ = integrateConst step tf P T fuel t φ :=
   integrateFn_const step tf P T fuel t φ
 
+/-- wiring of the 2-D/3-D constant-parameter drivers (table regenerated from `_two/_three_pops_const_params`): along axis `ax` the
+    coefficients are built from V(grid_ax, ν_ax) and M(grid_ax, other grids in axis order — each broadcast along its own axis —,
+    m_{ax,l} in the same order, γ_ax, h_ax); the boundary terms use ν_ax, M at the [0,…,0] / [−1,…,−1] corner and dx[0] / dx[−1]. -/
+def gridName (k : ℕ) : String := ["xx", "yy", "zz"].getD k ""
+def axLetter (k : ℕ) : String := ["x", "y", "z"].getD k ""
+def bcast (d k : ℕ) (sl : String) : String :=
+  gridName k ++ "[" ++ ",".intercalate ((List.range d).map fun p => if p = k then sl else "nuax") ++ "]"
+def mArgs (d ax : ℕ) (first : String) : List String :=
+  [first] ++ (((List.range d).filter (· ≠ ax)).map fun l => bcast d l ":")
+    ++ (((List.range d).filter (· ≠ ax)).map fun l => "m" ++ toString (ax+1) ++ toString (l+1))
+    ++ ["gamma" ++ toString (ax+1), "h" ++ toString (ax+1)]
+def corner (d : ℕ) (i : String) : String := "[" ++ ",".intercalate ((List.range d).map fun _ => i) ++ "]"
+def preWiringOk (e : Py.PreWiring) : Bool :=
+  let g := gridName e.ax; let a := axLetter e.ax; let nu := "nu" ++ toString (e.ax+1)
+  if e.what == "V" ++ a then e.args == [g, nu]
+  else if e.what == "V" ++ a ++ "Int" then
+    e.args == ["(" ++ g ++ "[:-1]+" ++ g ++ "[1:])/2", nu] || e.args == ["(" ++ g ++ "[1:]+" ++ g ++ "[:-1])/2", nu]
+  else if e.what == "M" ++ a then e.args == mArgs e.d e.ax (bcast e.d e.ax ":")
+  else if e.what == "M" ++ a ++ "Int" then
+    e.args == mArgs e.d e.ax ("(" ++ bcast e.d e.ax ":-1" ++ "+" ++ bcast e.d e.ax "1:" ++ ")/2")
+      || e.args == mArgs e.d e.ax ("(" ++ bcast e.d e.ax "1:" ++ "+" ++ bcast e.d e.ax ":-1" ++ ")/2")
+  else if e.what == "bc:M" ++ a ++ corner e.d "0" ++ "<=0" then
+    e.args == ["b" ++ a ++ corner e.d "0", "(0.5/" ++ nu ++ "-M" ++ a ++ corner e.d "0" ++ ")*2/d" ++ a ++ "[0]"]
+  else if e.what == "bc:M" ++ a ++ corner e.d "-1" ++ ">=0" then
+    e.args == ["b" ++ a ++ corner e.d "-1", "-(-0.5/" ++ nu ++ "-M" ++ a ++ corner e.d "-1" ++ ")*2/d" ++ a ++ "[-1]"]
+  else false
+
+theorem C02_wiring_precalc :
+    Py.preWiring.all preWiringOk = true
+    ∧ Py.preWiring.map (fun e => (e.d, e.ax)) = (List.replicate 4 (2, 0)) ++ (List.replicate 4 (2, 1)) ++ (List.replicate 2 (2, 0))
+        ++ (List.replicate 2 (2, 1)) ++ (List.replicate 6 (3, 0)) ++ (List.replicate 6 (3, 1)) ++ (List.replicate 6 (3, 2)) := by
+  decide
+
 /-- non-vacuity: a 5-point grid, ν=2, m=1, γ=−3, h=1/5, dt=1/100 — pivots are non-zero and the step solves. -/
 example : PivotsOk 1 0
     ((axisLine #[0, 1/10, 3/10, 6/10, 1] { nu := 2, gamma := -3, h := 1/5, ms := [1], beta := none } [1/2] false (fun _ => 1) (1/100)).rows
